@@ -41,6 +41,9 @@ type lstate struct {
 	// unlockers: local variables holding the release function returned by a lock helper
 	// (unlock := u.lockBoth(tx); ... unlock()), with the locks it releases
 	unlockers []unlocker
+	// nils: what is known about the nil-ness of a local that a lock helper returned (tx := u.detachTx(id): the
+	// lock is held exactly when tx is not nil)
+	nils map[types.Object]bool
 }
 
 type unlocker struct {
@@ -60,11 +63,26 @@ func (s lstate) key() string {
 	for _, u := range s.unlockers {
 		fmt.Fprintf(&sb, "|u%d", u.obj.Pos())
 	}
+	if len(s.nils) > 0 {
+		var ks []string
+		for o, v := range s.nils {
+			ks = append(ks, fmt.Sprintf("n%d=%v", o.Pos(), v))
+		}
+		sort.Strings(ks)
+		sb.WriteString("|" + strings.Join(ks, ","))
+	}
 	return sb.String()
 }
 
 func (s lstate) clone() lstate {
-	return lstate{held: append([]Held{}, s.held...), defers: append([]ast.Node{}, s.defers...), unlockers: append([]unlocker{}, s.unlockers...)}
+	ns := lstate{held: append([]Held{}, s.held...), defers: append([]ast.Node{}, s.defers...), unlockers: append([]unlocker{}, s.unlockers...)}
+	if len(s.nils) > 0 {
+		ns.nils = map[types.Object]bool{}
+		for k, v := range s.nils {
+			ns.nils[k] = v
+		}
+	}
+	return ns
 }
 
 func (s lstate) holds(path string) (Held, bool) {
@@ -528,6 +546,8 @@ func (p *Prog) lockOpOf(pkg *packages.Package, c *ast.CallExpr) *LockOp {
 }
 
 type lockAnalyzer struct {
+	// exitRets (optional): return statements by the lock set held when they are reached (top-level body only)
+	exitRets     map[string][]*ast.ReturnStmt
 	p            *Prog
 	fi           *FuncInfo
 	res          *LockResult
@@ -706,6 +726,12 @@ func (la *lockAnalyzer) body(pkg *packages.Package, body *ast.BlockStmt, entry l
 		if n.Exit {
 			for _, s := range outs[0] {
 				for _, es := range la.runDefers(pkg, s, inLit) {
+					if la.exitRets != nil && la.depth == 1 {
+						if rs, isRet := n.Ast.(*ast.ReturnStmt); isRet {
+							hk := heldString(es.held)
+							la.exitRets[hk] = append(la.exitRets[hk], rs)
+						}
+					}
 					k := es.key()
 					if !exitSeen[k] {
 						exitSeen[k] = true
@@ -769,6 +795,22 @@ func (la *lockAnalyzer) transfer(pkg *packages.Package, f *Flat, n *GNode, s lst
 	}
 	// field accesses
 	la.fieldEvents(pkg, n.Ast, s, ctx, inLit)
+	// a test of a local whose nil-ness a lock helper decided
+	if n.IsCond && len(s.nils) > 0 {
+		if x := isNilCompare(info, n.Ast.(ast.Expr)); x != nil {
+			if isNil, known := s.nils[objOf(info, x)]; known {
+				be := ast.Unparen(n.Ast.(ast.Expr)).(*ast.BinaryExpr)
+				condTrue := isNil
+				if be.Op == token.NEQ {
+					condTrue = !isNil
+				}
+				if condTrue {
+					return map[int][]lstate{1: {s}, 2: {}, 0: {s}}
+				}
+				return map[int][]lstate{1: {}, 2: {s}, 0: {s}}
+			}
+		}
+	}
 	// try-lock in a condition
 	if n.IsCond {
 		cond := ast.Unparen(n.Ast.(ast.Expr))
@@ -863,6 +905,44 @@ func (la *lockAnalyzer) applyCall(pkg *packages.Package, info *types.Info, n *GN
 		}
 		return []lstate{ns}
 	}
+	// a helper with a net effect on the lock set: lockWithAll(tx) / unlockWithAll(tx) / tx := detachTx(id)
+	if helperFI != nil {
+		if net := la.p.lockNet(helperFI); net != nil && (len(net.Acq) > 0 || len(net.Rel) > 0) {
+			var lhs ast.Expr
+			if as, ok := n.Ast.(*ast.AssignStmt); ok && len(as.Rhs) == 1 && ast.Unparen(as.Rhs[0]) == ast.Expr(c) && len(as.Lhs) >= 1 {
+				lhs = as.Lhs[0]
+			}
+			rel := translateNet(net.Rel, helperFI, c, net.ResultVar, lhs)
+			acq := translateNet(net.Acq, helperFI, c, net.ResultVar, lhs)
+			ns := s
+			for _, h := range rel {
+				_, held := ns.holds(h.Path)
+				la.event(&LockEvent{Kind: "release", Call: c, Op: &LockOp{Path: h.Path, Class: h.Class, Mode: h.Mode}, Node: n.Ast, Held: ns.held, Ctx: ctx, InLit: inLit, Stray: !held})
+				ns = dropHeld(ns, []Held{h})
+			}
+			base := ns
+			for _, h := range acq {
+				_, double := ns.holds(h.Path)
+				la.event(&LockEvent{Kind: "acquire", Call: c, Op: &LockOp{Path: h.Path, Class: h.Class, Mode: h.Mode, Acquire: true}, Node: n.Ast, Held: ns.held, Ctx: ctx, InLit: inLit, Double: double})
+				ns = addHeld(ns, []Held{h})
+			}
+			if net.NilSplit && lhs != nil {
+				if o := objOf(info, lhs); o != nil {
+					a, b := base.clone(), ns.clone()
+					if a.nils == nil {
+						a.nils = map[types.Object]bool{}
+					}
+					if b.nils == nil {
+						b.nils = map[types.Object]bool{}
+					}
+					a.nils[o], b.nils[o] = true, false
+					return []lstate{a, b}
+				}
+				return []lstate{base, ns}
+			}
+			return []lstate{ns}
+		}
+	}
 	// function literals passed as arguments run synchronously inside the callee
 	out := []lstate{s}
 	for ai, a := range c.Args {
@@ -952,6 +1032,24 @@ func (la *lockAnalyzer) runDefers(pkg *packages.Package, s lstate, inLit *ast.Fu
 						next = append(next, lstate{held: dropHeld(cs, hs).held})
 						continue
 					}
+				}
+			}
+			// defer u.unlockWithAll(tx) / defer u.discardTx(tx): a helper with a net effect on the lock set
+			if callee := la.p.staticCallee(pkg, ds.Call); callee != nil {
+				if net := la.p.lockNet(callee); net != nil && !net.NilSplit && (len(net.Acq) > 0 || len(net.Rel) > 0) {
+					ns := lstate{held: cs.held}
+					for _, h := range translateNet(net.Rel, callee, ds.Call, "", nil) {
+						_, held := ns.holds(h.Path)
+						la.event(&LockEvent{Kind: "release", Call: ds.Call, Op: &LockOp{Path: h.Path, Class: h.Class, Mode: h.Mode}, Node: ds, Held: ns.held, Ctx: "defer", InLit: inLit, Stray: !held})
+						ns = dropHeld(ns, []Held{h})
+					}
+					for _, h := range translateNet(net.Acq, callee, ds.Call, "", nil) {
+						la.event(&LockEvent{Kind: "acquire", Call: ds.Call, Op: &LockOp{Path: h.Path, Class: h.Class, Mode: h.Mode, Acquire: true}, Node: ds, Held: ns.held, Ctx: "defer", InLit: inLit})
+						ns = addHeld(ns, []Held{h})
+					}
+					la.event(&LockEvent{Kind: "call", Call: ds.Call, Keys: la.p.calleeKeys(pkg, ds.Call), Node: ds, Held: cs.held, Ctx: "defer", InLit: inLit})
+					next = append(next, lstate{held: ns.held})
+					continue
 				}
 			}
 			// defer unlock() with unlock := helper(args)
@@ -1070,4 +1168,168 @@ func holdsClass(hs []Held, class, mode string) bool {
 		}
 	}
 	return false
+}
+
+// lockNetSum: the net effect of a function of the module on the lock set of its caller, in the function's own
+// names: Rel are locks it releases that it did not take (the caller's), Acq locks it still holds when it returns.
+// NilSplit: it returns a pointer and holds Acq exactly when that pointer is not nil (ResultVar is the local it
+// returns); on the nil path it holds nothing.
+type lockNetSum struct {
+	Acq, Rel  []Held
+	NilSplit  bool
+	ResultVar string
+}
+
+func (p *Prog) lockNet(fi *FuncInfo) *lockNetSum {
+	if p.lockNets == nil {
+		p.lockNets = map[string]*lockNetSum{}
+	}
+	if sum, ok := p.lockNets[fi.Key]; ok {
+		return sum
+	}
+	p.lockNets[fi.Key] = nil // recursion guard
+	if fi.Decl == nil || fi.Decl.Body == nil || fi.Lit != nil {
+		return nil
+	}
+	if _, isW := p.lockWrappers()[fi.Key]; isW {
+		return nil
+	}
+	if h := p.lockHelper(fi); h != nil && (len(h.Acquires) > 0 || len(h.UnderLock) > 0) {
+		return nil
+	}
+	// cheap pre-test: the body (without literals) performs a lock operation or calls a function that has a net effect
+	touches := false
+	walkNoLit(fi.Decl.Body, func(x ast.Node) bool {
+		if c, ok := x.(*ast.CallExpr); ok {
+			if p.lockOpOf(fi.Pkg, c) != nil {
+				touches = true
+			} else if callee := p.staticCallee(fi.Pkg, c); callee != nil && callee != fi {
+				if n := p.lockNet(callee); n != nil && (len(n.Acq) > 0 || len(n.Rel) > 0) {
+					touches = true
+				}
+			}
+		}
+		return true
+	})
+	if !touches {
+		return nil
+	}
+	info := fi.Pkg.TypesInfo
+	run := func(entry []Held) (*LockResult, map[string][]*ast.ReturnStmt) {
+		la := &lockAnalyzer{p: p, fi: fi, res: &LockResult{Fn: fi}, exitRets: map[string][]*ast.ReturnStmt{}}
+		exits := la.body(fi.Pkg, fi.Decl.Body, lstate{held: append([]Held{}, entry...)}, "", nil)
+		for _, e := range exits {
+			la.res.Exits = append(la.res.Exits, e.held)
+		}
+		return la.res, la.exitRets
+	}
+	lr, _ := run(nil)
+	var rel []Held
+	seenRel := map[string]bool{}
+	for _, ev := range lr.Events {
+		if ev.Kind == "release" && ev.Stray && ev.Op != nil && ev.Ctx != "go" && ev.InLit == nil && !seenRel[ev.Op.Path] {
+			seenRel[ev.Op.Path] = true
+			rel = append(rel, Held{Path: ev.Op.Path, Class: ev.Op.Class, Mode: ev.Op.Mode})
+		}
+	}
+	// with the caller's locks in hand: what is held at the exits
+	lr2, rets := run(rel)
+	groups := map[string][]Held{}
+	for _, e := range lr2.Exits {
+		groups[heldString(e)] = e
+	}
+	for _, ev := range lr2.Events {
+		if ev.Kind == "release" && ev.Stray && ev.InLit == nil && ev.Ctx != "go" {
+			return nil // a release that is not covered on some path: no summary
+		}
+	}
+	sum := &lockNetSum{Rel: rel}
+	switch len(groups) {
+	case 0:
+		return nil
+	case 1:
+		for _, h := range groups {
+			sum.Acq = h
+		}
+	case 2:
+		empty, hasEmpty := groups["{}"]
+		_ = empty
+		if !hasEmpty || len(rel) > 0 {
+			return nil
+		}
+		var other []Held
+		otherKey := ""
+		for k, h := range groups {
+			if k != "{}" {
+				other, otherKey = h, k
+			}
+		}
+		// the empty exits return nil, the others a local variable
+		okNil := len(rets["{}"]) > 0
+		for _, rs := range rets["{}"] {
+			if len(rs.Results) != 1 || !isNilIdent(info, rs.Results[0]) {
+				okNil = false
+			}
+		}
+		resVar := ""
+		okVar := len(rets[otherKey]) > 0
+		for _, rs := range rets[otherKey] {
+			if len(rs.Results) != 1 {
+				okVar = false
+				continue
+			}
+			id, isId := ast.Unparen(rs.Results[0]).(*ast.Ident)
+			if !isId || isNilIdent(info, id) || (resVar != "" && resVar != id.Name) {
+				okVar = false
+				continue
+			}
+			resVar = id.Name
+		}
+		if !okNil || !okVar {
+			return nil
+		}
+		sum.Acq, sum.NilSplit, sum.ResultVar = other, true, resVar
+	default:
+		return nil
+	}
+	if len(sum.Acq) == 0 && len(sum.Rel) == 0 {
+		return nil
+	}
+	// a function that returns the local whose lock it holds (without the nil split): the result names the path
+	if sum.ResultVar == "" && len(sum.Acq) > 0 {
+		walkNoLit(fi.Decl.Body, func(x ast.Node) bool {
+			if rs, ok := x.(*ast.ReturnStmt); ok && len(rs.Results) >= 1 {
+				if id, isId := ast.Unparen(rs.Results[0]).(*ast.Ident); isId && !isNilIdent(info, id) {
+					sum.ResultVar = id.Name
+				}
+			}
+			return true
+		})
+	}
+	p.lockNets[fi.Key] = sum
+	return sum
+}
+
+// translateNet rewrites helper-relative lock paths to the caller's terms: parameters and receiver by the
+// arguments, the returned local by the variable the call is assigned to.
+func translateNet(hs []Held, callee *FuncInfo, c *ast.CallExpr, resultVar string, lhs ast.Expr) []Held {
+	res := translateHeld(hs, callee, c)
+	if resultVar != "" && lhs != nil {
+		to := exprPath(lhs)
+		for i, h := range hs {
+			if h.Path == resultVar || strings.HasPrefix(h.Path, resultVar+".") {
+				// only when the head is not also a parameter name (translateHeld already handled those)
+				isParam := false
+				for _, po := range paramObjs(callee) {
+					if po != nil && po.Name() == resultVar {
+						isParam = true
+					}
+				}
+				if !isParam {
+					res[i].Path = to + h.Path[len(resultVar):]
+				}
+			}
+		}
+	}
+	return res
 }
